@@ -1198,6 +1198,51 @@ def rule_disk_levels(ctx: Ctx) -> None:
     g, c = levels["get"], levels["__contains__"]
     ctx.tri("9-levels", disk.methods["__contains__"], disk.methods["__contains__"].node, g == c and bool(g), bool(g) and bool(c) and g != c,
             f"`in` and get() consult the same levels {sorted(g)}", f"get() answers from {sorted(g)} but `in` only looks at {sorted(c)}: a key can be reported absent while get() returns its value (or the reverse)", key="contains-vs-get")
+    # the directory is the truth, the LRU in front of it only a shortcut for HITS: a miss in the LRU must go on to the file.  A
+    # return whose value is the LRU membership itself makes "not in the LRU" final - entries written by another handle / process, or
+    # pushed out of the LRU, are not found (cached functions re-execute)
+    ct = disk.methods["__contains__"]
+    final_from_lru = [r for r in walk_no_nested(ct.node) if isinstance(r, ast.Return) and r.value is not None and "lru_cache" in norm(r.value) and "_get_file_path" not in norm(r.value) and ".exists()" not in norm(r.value)
+                      and not (isinstance(r.value, ast.Constant))]
+    ctx.add("9-levels", ct, final_from_lru[0] if final_from_lru else ct.node, not final_from_lru, "a miss in the in-memory level falls through to the file" if not final_from_lru else
+            f"`{norm(final_from_lru[0])[:60]}` answers `in` from the in-memory LRU alone: a key whose file exists but that is not (or no longer) in the LRU - written by another DiskCache object on the directory, or evicted from the LRU - "
+            "is reported absent, so pipeline / map recompute results that are stored", key="contains-falls-through")
+    # concurrent handles: a file that clear() listed may be gone when it is unlinked (a peer evicted or cleared it) - the unlink has to
+    # tolerate that
+    TOLERANT = ("Exception", "BaseException", "OSError", "FileNotFoundError", "IOError", "EnvironmentError")
+    for m in ("clear", "_evict_if_needed"):
+        fn = dict.get(disk.methods, m)
+        if fn is None:
+            continue
+        par_ = {id(c_): p_ for p_ in ast.walk(fn.node) for c_ in ast.iter_child_nodes(p_)}
+        for u in [c for c in ast.walk(fn.node) if isinstance(c, ast.Call) and isinstance(c.func, ast.Attribute) and c.func.attr == "unlink"]:
+            if any(k.arg == "missing_ok" and isinstance(k.value, ast.Constant) and k.value.value is True for k in u.keywords):
+                continue
+            covered, narrow = False, None
+            x: ast.AST = u
+            while id(x) in par_:
+                x = par_[id(x)]
+                if isinstance(x, ast.With):
+                    for i in x.items:
+                        if isinstance(i.context_expr, ast.Call) and dotted(i.context_expr.func).rsplit(".", 1)[-1] == "suppress":
+                            names = [dotted(a).rsplit(".", 1)[-1] for a in i.context_expr.args]
+                            if any(n_ in TOLERANT for n_ in names):
+                                covered = True
+                            else:
+                                narrow = names
+                if isinstance(x, ast.Try):
+                    for h in x.handlers:
+                        names = [dotted(t).rsplit(".", 1)[-1] for t in ([h.type] if h.type is not None and not isinstance(h.type, ast.Tuple) else (h.type.elts if h.type is not None else []))]
+                        if h.type is None or any(n_ in TOLERANT for n_ in names):
+                            covered = True
+                        else:
+                            narrow = names
+            if m == "clear":
+                ctx.tri("9-levels", fn, u, covered, narrow is not None and not covered, "clear() tolerates a file that vanished between the listing and the unlink",
+                        f"`{norm(u)}` in clear() only tolerates {narrow}: when another handle on the directory evicts or clears a listed file first, clear() raises FileNotFoundError half-way (the remaining files and the LRU stay)",
+                        "whether clear() tolerates a vanished file was not recognised", key="clear-tolerates-vanished")
+
+
     # a READ leaves the directory alone: it neither rewrites the entry (which makes it the newest file and a later eviction
     # delete a different one) nor evicts
     from ..effects import FS_DELETE, FS_WRITE
